@@ -1,4 +1,5 @@
 import asyncio
+import contextlib
 import contextvars
 import inspect
 import logging
@@ -144,6 +145,40 @@ holds_global_lock: ContextVar[bool] = ContextVar('holds_global_lock', default=Fa
 _current_handler_id_context: ContextVar[str | None] = ContextVar('current_handler_id', default=None)
 # Context variable to track the bus that is running the current handler (for event.event_bus)
 _current_eventbus_context: ContextVar['EventBus | None'] = ContextVar('current_eventbus', default=None)
+
+
+# Context variable holding the lock on which the handlers running in the current context take turns to process awaited
+# events inline (see BaseEvent.__await__). None = the top level: the per-loop root lock below
+_inline_processing_lock_context: ContextVar[asyncio.Lock | None] = ContextVar('inline_processing_lock', default=None)
+_inline_processing_root_lock: asyncio.Lock | None = None
+_inline_processing_root_lock_loop: asyncio.AbstractEventLoop | None = None
+
+
+@contextlib.asynccontextmanager
+async def inline_processing_turn():
+    """
+    Serialises inline processing of awaited events between handlers that run at the same time.
+
+    On a parallel_handlers bus every handler task of an event inherits the 'I hold the global lock' context, so two
+    sibling handlers that each await a child would process those children at the same time. Handlers that share a
+    context level take turns on that level's lock; while one has its turn, everything it processes inline runs one
+    level further down (handler tasks created there inherit a fresh lock of their own to take turns on).
+    """
+    global _inline_processing_root_lock, _inline_processing_root_lock_loop
+    lock = _inline_processing_lock_context.get()
+    if lock is None:
+        loop = asyncio.get_running_loop()
+        if _inline_processing_root_lock is None or _inline_processing_root_lock_loop is not loop:
+            _inline_processing_root_lock = asyncio.Lock()
+            _inline_processing_root_lock_loop = loop
+        lock = _inline_processing_root_lock
+    await lock.acquire()
+    token = _inline_processing_lock_context.set(asyncio.Lock())
+    try:
+        yield
+    finally:
+        _inline_processing_lock_context.reset(token)
+        lock.release()
 
 
 class ReentrantLock:
@@ -878,6 +913,7 @@ class EventBus:
         _current_event_context.set(None)
         _current_handler_id_context.set(None)
         _current_eventbus_context.set(None)
+        _inline_processing_lock_context.set(None)
         try:
             while self._is_running:
                 try:
